@@ -20,6 +20,7 @@ Terms (tuples):
   ("proj", term, what)            projection out of an opaque term (pattern binding / field access)
   ("closure", node, env)
 """
+import re
 from collections import namedtuple
 
 State = namedtuple("State", "env conds events fresh flow ret")
@@ -93,6 +94,12 @@ def _assigned_locals(node):
     return out
 
 
+def _lit_eq(a, b):
+    def norm(x):
+        return re.sub(r"_?[iu](8|16|32|64|size)$", "", str(x))
+    return norm(a) == norm(b)
+
+
 def _atom_term(v):
     while v[0] == "un" and v[1] == "!":
         v = v[2]
@@ -128,6 +135,7 @@ class Config:
         self.inline_exact = tuple(inline_exact)  # callee ids (short or full) that are inlined
         self.effect_re = None                    # compiled regex: callees (short path) recorded as effects
         self.atom_terms = {}                     # condition key -> term of the (un-negated, `==`-normalised) atom
+        self.no_inline = ()                      # substrings of callee ids that are never inlined (stateful helpers)
         self.error_paths = error_paths           # also follow the error exits of `?`
 
 
@@ -344,22 +352,7 @@ class Evaluator:
                 if s.flow:
                     out.append((s, False))
                     continue
-                r = self.try_match(n["p"], v)
-                pr = self.pat_render(n["p"])
-                if pr in ("Some", "None"):
-                    akey, apol = "is_none(%s)" % render(v), pr == "None"
-                else:
-                    akey, apol = "%s is %s" % (render(v), pr), True
-                if r in ("yes", "maybe"):
-                    s1 = s if r == "yes" else self.with_cond(s, akey, apol)
-                    if s1 is not None:
-                        env = dict(s1.env)
-                        self.bind(n["p"], v, env)
-                        out.append((s1._replace(env=env), True))
-                if r in ("no", "maybe"):
-                    s2 = s if r == "no" else self.with_cond(s, akey, not apol)
-                    if s2 is not None:
-                        out.append((s2, False))
+                out.extend(self.match_pattern(n["p"], v, s))
             return out
         if k in ("Paren", "Use") and "e" in n:
             return self.cond(n["e"], st, depth)
@@ -379,6 +372,131 @@ class Evaluator:
                 if s2 is not None:
                     out.append((s2, val == pol))
         return out
+
+    def simple_pattern(self, p):
+        """patterns made of Option constructors, literals, wildcards / bindings, `|` and tuples only"""
+        k = p.get("k")
+        if k in ("Wild", "Missing", "Lit"):
+            return True
+        if k == "Bind":
+            return self.simple_pattern(p["sub"]) if "sub" in p else True
+        if k in ("Ref", "Box", "Deref"):
+            return self.simple_pattern(p["p"])
+        if k in ("Or", "Tuple"):
+            return all(self.simple_pattern(q) for q in p["ps"])
+        if k in ("TS", "Path", "Struct"):
+            path = p.get("p", "")
+            if path.endswith("Option::None"):
+                return True
+            if path.endswith("Option::Some"):
+                return all(self.simple_pattern(q) for q in p.get("ps", []))
+        return False
+
+    def _mentions_option(self, p):
+        if not isinstance(p, dict):
+            return False
+        if p.get("p", "") and isinstance(p.get("p"), str) and (p["p"].endswith("Option::None") or p["p"].endswith("Option::Some")):
+            return True
+        for key in ("p", "sub"):
+            if isinstance(p.get(key), dict) and self._mentions_option(p[key]):
+                return True
+        return any(self._mentions_option(q) for q in p.get("ps", []) if isinstance(q, dict))
+
+    def match_pattern(self, p, v, st):
+        """-> list of (state, matched).  Patterns over Option / literals are decomposed into primitive atoms
+        (`is_none(x)`, `x == lit`), so that `if let None | Some(0) = x` and `x.map_or(true, |n| n == 0)`-style tests
+        agree on their atoms; other patterns keep one opaque atom `x is <pattern>`."""
+        if not self.simple_pattern(p):
+            r = self.try_match(p, v)
+            pr = self.pat_render(p)
+            akey = "%s is %s" % (render(v), pr)
+            out = []
+            if r in ("yes", "maybe"):
+                s1 = st if r == "yes" else self.with_cond(st, akey, True)
+                if s1 is not None:
+                    env = dict(s1.env)
+                    self.bind(p, v, env)
+                    out.append((s1._replace(env=env), True))
+            if r in ("no", "maybe"):
+                s2 = st if r == "no" else self.with_cond(st, akey, False)
+                if s2 is not None:
+                    out.append((s2, False))
+            return out
+        k = p.get("k")
+        if k in ("Wild", "Missing"):
+            return [(st, True)]
+        if k == "Bind":
+            res = self.match_pattern(p["sub"], v, st) if "sub" in p else [(st, True)]
+            out = []
+            for s, ok in res:
+                if ok:
+                    env = dict(s.env)
+                    env[p["n"]] = v
+                    s = s._replace(env=env)
+                out.append((s, ok))
+            return out
+        if k in ("Ref", "Box", "Deref"):
+            return self.match_pattern(p["p"], v, st)
+        if k == "Lit":
+            pv = ("-" if p.get("neg") else "") + p["v"]
+            if v[0] == "lit":
+                return [(st, _lit_eq(pv, v[1]))]
+            key = "(%s == %s)" % (render(v), pv)
+            self.cfg.atom_terms[key] = ("bin", "==", v, ("lit", pv))
+            out = []
+            for val in (True, False):
+                s2 = self.with_cond(st, key, val)
+                if s2 is not None:
+                    out.append((s2, val))
+            return out
+        if k == "Or":
+            out = []
+            cur = [st]
+            for q in p["ps"]:
+                nxt = []
+                for c in cur:
+                    for s, ok in self.match_pattern(q, v, c):
+                        if ok:
+                            out.append((s, True))
+                        else:
+                            nxt.append(s)
+                cur = nxt
+            out.extend((c, False) for c in cur)
+            return out
+        if k == "Tuple":
+            cur = [(st, True)]
+            for i, q in enumerate(p["ps"]):
+                nxt = []
+                for c, ok in cur:
+                    if not ok:
+                        nxt.append((c, False))
+                        continue
+                    nxt.extend(self.match_pattern(q, self.project(v, str(i)), c))
+                cur = nxt
+            return cur
+        path = p.get("p", "")
+        if path.endswith("Option::None") or path.endswith("Option::Some"):
+            want_none = path.endswith("Option::None")
+            if v[0] in ("none", "some"):
+                if (v[0] == "none") != want_none:
+                    return [(st, False)]
+                if want_none or not p.get("ps"):
+                    return [(st, True)]
+                return self.match_pattern(p["ps"][0], v[1], st)
+            key = "is_none(%s)" % render(v)
+            out = []
+            for val in (True, False):
+                s2 = self.with_cond(st, key, val)
+                if s2 is None:
+                    continue
+                if val != want_none:
+                    out.append((s2, False))
+                elif want_none or not p.get("ps"):
+                    out.append((s2, True))
+                else:
+                    out.extend(self.match_pattern(p["ps"][0], self.project(v, "Some.0"), s2))
+            return out
+        return [(st, True)]
 
     def truth(self, v):
         if v[0] == "lit" and v[1] in ("true", "false"):
@@ -688,6 +806,27 @@ class Evaluator:
             if s.flow:
                 out.append((s, ("lit", "!")))
                 continue
+            if v[0] not in ("none", "some") and all(self.simple_pattern(a["p"]) for a in n["arms"]) and \
+                    any(self._mentions_option(a["p"]) for a in n["arms"]):
+                # a match over an Option (possibly with literal payloads and guards): decompose into primitive atoms
+                cur = [s]
+                for arm in n["arms"]:
+                    nxt = []
+                    for c in cur:
+                        for c2, ok in self.match_pattern(arm["p"], v, c):
+                            if not ok:
+                                nxt.append(c2._replace(env=c.env))
+                                continue
+                            if "g" in arm:
+                                for cg, b_ in self.cond(arm["g"], c2, depth):
+                                    if b_:
+                                        out.extend(self.ev(arm["b"], cg, depth))
+                                    else:
+                                        nxt.append(cg._replace(env=c.env))
+                            else:
+                                out.extend(self.ev(arm["b"], c2, depth))
+                    cur = nxt
+                continue
             pats = tuple(self.pat_render(a["p"]) + (" if .." if "g" in a else "") for a in n["arms"])
             key = "match %s {%s}" % (render(v), ", ".join(pats))
             optkey = "is_none(%s)" % render(v) if sorted(pats) in (["None", "Some"], ["None", "_"], ["Some", "_"]) and "_" != pats[0] else None
@@ -886,7 +1025,7 @@ class Evaluator:
             if a[0] == "some":
                 return [(st, a)]
         fn = self.db.fns.get(f)
-        if fn is not None and depth < self.cfg.max_depth and (f in self.cfg.inline_exact or sf in self.cfg.inline_exact or any(f.startswith(p) or sf.startswith(p) for p in self.cfg.inline_prefixes)):
+        if fn is not None and depth < self.cfg.max_depth and not any(x in f for x in self.cfg.no_inline) and (f in self.cfg.inline_exact or sf in self.cfg.inline_exact or any(f.startswith(p) or sf.startswith(p) for p in self.cfg.inline_prefixes)):
             env = {}
             for i, p in enumerate(fn.d.get("hparams") or []):
                 if i < len(vs):
